@@ -3,7 +3,7 @@
    \NNN, \c, %[-]WIDTHdirective); [render_ref] its reference rendering.  [run_printf] is the model of
    FormatStringParser + Printf::print.  [value d] is the text of directive d for the file at hand (the
    path-valued ones are modelled in PrintfValue.v, the numeric ones come from the record C13 selects). *)
-Require Import Tables TablesOk Printf PrintfSpec PrintfProofs Entry EntryProofs PathModel Paths PathsProofs PrintfValue.
+Require Import Tables TablesOk Printf PrintfSpec PrintfProofs Entry EntryProofs PathModel Paths PathsProofs PrintfValue PrintfValueProofs.
 From Coq Require Import List Arith Bool Lia.
 Import ListNotations.
 
@@ -44,6 +44,25 @@ Proof.
   f_equal. rewrite firstn_app, Nat.sub_diag, firstn_all. cbn [firstn]. apply app_nil_r.
 Qed.
 Print Assumptions C16_H_as_given.
+
+(* %f is the last component and %h the part before it, of the path as spelled: %h, '/' and %f put the path together again
+   (trailing slashes apart; "d/." is "d" and "."), and %h is "." exactly when there is no directory part *)
+Theorem C16_h_f_recompose : forall path, trim_end_sl path <> [] ->
+  (pv_h path ++ SL :: pv_f path = trim_end_sl path /\ In SL (trim_end_sl path)) \/
+  (pv_h path = [DOT] /\ pv_f path = trim_end_sl path /\ ~ In SL (trim_end_sl path)).
+Proof. exact h_f_recompose. Qed.
+Print Assumptions C16_h_f_recompose.
+
+(* for an entry below a starting point %f is its own name and %h everything before the slash, however that is spelled *)
+Theorem C16_h_f_below : forall base n, plainname n -> pv_f (base ++ SL :: n) = n /\ pv_h (base ++ SL :: n) = base.
+Proof. exact h_f_below. Qed.
+Print Assumptions C16_h_f_below.
+
+(* "d/." : %f = ".", %h = "d";  "d/./x" : %h = "d/.";  "x/" : %f = "x", %h = ".";  "/" : %f = "/", %h = "" *)
+Example C16_h_f_witness :
+  (pv_f [100; 47; 46], pv_h [100; 47; 46]) = ([46], [100]) /\ pv_h [100; 47; 46; 47; 120] = [100; 47; 46] /\
+  (pv_f [120; 47], pv_h [120; 47]) = ([120], [46]) /\ (pv_f [47], pv_h [47]) = ([47], []).
+Proof. vm_compute. repeat split. Qed.
 
 (* non-vacuity:  "[%-5d|%3f]\t%%\101\\"  with %d = "2" and %f = "name" *)
 Example C16_witness :
